@@ -72,6 +72,8 @@ pub static SCENARIOS: &[ScenarioDef] = &[
         "C14: a cascade over more than 128 nodes re-pins the reclaiming thread in the middle while another thread is pinned"),
     scen!("rc/concurrent-release", concurrent_release,
         "two threads release the last two handles of one graph concurrently"),
+    scen!("rc/first-downgrade", first_downgrade,
+        "C03: two threads downgrade an object that never had a weak pointer (the flag-setting CAS of one loses) while a third clones and drops strong references"),
     scen!("rc/latency-vs-holder", latency_vs_holder,
         "C06: the head of an aged chain of n nodes is dropped while another thread releases its handle to node k; afterwards all n nodes must be destructed within the grace-period bound"),
 ];
@@ -1032,6 +1034,59 @@ fn concurrent_release(p: &Params) -> Program {
                     c.wdrop(x);
                 }
                 c.rounds(4);
+            }),
+        ],
+        ..base(p)
+    }
+}
+
+/// The very first downgrade sets the WEAKED flag with a compare-exchange that other changes of
+/// the count word make fail: every loser must retry (and then take the fetch_add path).
+fn first_downgrade(p: &Params) -> Program {
+    let many = p.get("many", 0) != 0;
+    Program {
+        setup: Some(body(|c, w| {
+            let x = c.new_node(1);
+            w.rc[1].put(c.clone_rc(&x));
+            w.rc[2].put(c.clone_rc(&x));
+            w.rc[0].put(x);
+        })),
+        threads: vec![
+            body(move |c, w| {
+                let r = w.rc[0].take();
+                if many {
+                    let [a, b] = c.weak_many::<2>(&r);
+                    c.wdrop(a);
+                    w.weak[0].put(b);
+                } else {
+                    w.weak[0].put(c.downgrade(&r));
+                }
+                c.drop_rc(r);
+                c.round();
+                let wk = w.weak[0].take();
+                if let Some(u) = c.upgrade(&wk) {
+                    c.deref(&u);
+                    c.drop_rc(u);
+                }
+                c.wdrop(wk);
+            }),
+            body(|c, w| {
+                let r = w.rc[1].take();
+                let wk = c.downgrade(&r);
+                c.drop_rc(r);
+                if let Some(u) = c.upgrade(&wk) {
+                    c.deref(&u);
+                    c.drop_rc(u);
+                }
+                c.wdrop(wk);
+                c.round();
+            }),
+            body(|c, w| {
+                let r = w.rc[2].take();
+                let r2 = c.clone_rc(&r);
+                c.drop_rc(r2);
+                c.drop_rc(r);
+                c.rounds(2);
             }),
         ],
         ..base(p)
